@@ -149,12 +149,117 @@ func TestVerifC07(t *testing.T) {
 		}
 	}
 	caseNo++
+	if r.Begin(caseNo, "relative start") {
+		vfC07RelativeStart(t, r)
+	}
+	caseNo++
+	if r.Begin(caseNo, "drm packages") {
+		vfC07DrmPackages(t, r)
+	}
+	caseNo++
 	if r.Begin(caseNo, "ingest API") {
 		vfC07IngestAPI(t, r)
 	}
 	if r.NViolations() > 0 {
 		t.Fail()
 	}
+}
+
+// vfC07RelativeStart: startrel_/stoprel_ are relative to the request instant, so the same path must give the answer that belongs to
+// the instant of each request, whatever was asked before (instants deliberately not monotone).
+func vfC07RelativeStart(t *testing.T, r *rep.R) {
+	s := vfBundledServer(t)
+	for _, mode := range []string{"", "segtimeline_1/"} {
+		for _, rel := range []int64{-20, -45} {
+			for _, tm := range []int64{100_500, 163_000, 120_250, 1_700_000_200_999, 163_000, 90_001} {
+				u := fmt.Sprintf("/livesim2/%sstartrel_%d/testpic_2s/Manifest.mpd?nowMS=%d", mode, rel, tm)
+				resp := vfGet(s, u)
+				r.Eval(1)
+				if resp.Code != 200 {
+					r.Violation("relative-start:mpd-status", map[string]any{"url": u, "status": resp.Code})
+					continue
+				}
+				m, err := ora.ParseMPD(resp.Body)
+				if err != nil {
+					r.Violation("relative-start:mpd-unparseable", map[string]any{"url": u})
+					continue
+				}
+				ast, ok := ora.TimeMS(m.AST)
+				want := tm + rel*1000 // the server rounds the instant to a whole second: anything within one second is accepted
+				if !ok || ast-want >= 1000 || want-ast >= 1000 {
+					r.Violation("relative-start:availabilityStartTime-does-not-follow-the-request-instant", map[string]any{"url": u, "availabilityStartTime": m.AST, "expected_ms_within_one_second_of": want})
+					continue
+				}
+				r.Class(fmt.Sprintf("relative-start|%s|rel=%d", mode, rel))
+			}
+			// stoprel: the presentation is dynamic before now+rel ... and static at or after; probed with rel < 0 (already stopped) and > 0
+			for _, tm := range []int64{200_000, 100_000, 300_500} {
+				for _, sr := range []int64{-10, 30} {
+					u := fmt.Sprintf("/livesim2/%sstart_50/stoprel_%d/testpic_2s/Manifest.mpd?nowMS=%d", mode, sr, tm)
+					resp := vfGet(s, u)
+					r.Eval(1)
+					if resp.Code != 200 {
+						continue // refusals are judged under C08
+					}
+					static := strings.Contains(string(resp.Body), `type="static"`)
+					if static != (sr <= 0) {
+						r.Violation("relative-stop:type-does-not-follow-the-request-instant", map[string]any{"url": u, "static": static})
+						continue
+					}
+					if static {
+						if m, err := ora.ParseMPD(resp.Body); err == nil {
+							if d, ok := ora.DurMS(m.MPDur); ok && (d-(tm+sr*1000-50_000) >= 1000 || (tm+sr*1000-50_000)-d >= 1000) {
+								r.Violation("relative-stop:duration-does-not-follow-the-request-instant", map[string]any{"url": u, "mediaPresentationDuration": m.MPDur, "expected_ms_within_one_second_of": tm + sr*1000 - 50_000})
+								continue
+							}
+						}
+					}
+					r.Class(fmt.Sprintf("relative-stop|%s|rel=%d", mode, sr))
+				}
+			}
+		}
+	}
+}
+
+// vfC07DrmPackages: init segments, media and MPDs of one representation under several DRM packages of the same scheme, first one
+// at a time (reference), then hammered concurrently: per-package state must not leak between requests.
+func vfC07DrmPackages(t *testing.T, r *rep.R) {
+	s := vfNewServer(t, ServerConfig{VodRoot: vfBundledVod(), DrmCfgFile: vfRepoRoot() + "/pkg/drm/testdata/drm_config_test.json"})
+	var reqs []vfReq
+	for _, drm := range []string{"drm_EZDRM-1-key-cbcs-test", "drm_EZDRM-2-keys-cbcs-test", "eccp_cbcs", "eccp_cenc"} {
+		for _, rp := range []string{"V300", "A48"} {
+			reqs = append(reqs, vfReq{"GET", fmt.Sprintf("/livesim2/%s/testpic_2s/%s/init.mp4?nowMS=100500", drm, rp), "", "drm-init"},
+				vfReq{"GET", fmt.Sprintf("/livesim2/%s/testpic_2s/%s/40.m4s?nowMS=100500", drm, rp), "", "drm-media"})
+		}
+		reqs = append(reqs, vfReq{"GET", fmt.Sprintf("/livesim2/%s/testpic_2s/Manifest.mpd?nowMS=100500", drm), "", "drm-mpd"})
+	}
+	ref := make([]vfAns, len(reqs))
+	for i, q := range reqs {
+		ref[i] = vfAnswer(s, q)
+		if ref[i].code != 200 {
+			r.Violation("drm-packages:status", map[string]any{"url": q.URL, "status": ref[i].code})
+			return
+		}
+	}
+	var wg sync.WaitGroup
+	reps := r.Pick(150, 1500)
+	for g := 0; g < 16; g++ {
+		wg.Add(1)
+		go func(g int) {
+			defer wg.Done()
+			for k := 0; k < reps; k++ {
+				i := (k*5 + g*3) % len(reqs)
+				got := vfAnswer(s, reqs[i])
+				r.Eval(1)
+				if got != ref[i] {
+					r.Violation("drm-packages:concurrent:answer-differs:"+reqs[i].Kind, map[string]any{"url": reqs[i].URL, "reference": fmt.Sprintf("%+v", ref[i]), "got": fmt.Sprintf("%+v", got)})
+					return
+				}
+				r.Class("drm-packages|concurrent|" + reqs[i].Kind)
+			}
+		}(g)
+	}
+	wg.Wait()
 }
 
 type vfAPIIn struct {
